@@ -59,7 +59,7 @@ fn build_world(name: &str) -> Built3 {
 
 /// (world, share of the remaining wall budget). `WPV_C17_WORLDS=a,b` restricts the run (debugging / mutant runs only).
 fn world_names(thorough: bool) -> Vec<(&'static str, f64)> {
-    let all: Vec<(&'static str, f64)> = if thorough { vec![("c17-spl", 0.4), ("c17-te", 0.25), ("c17-tfee", 0.6), ("c17-t22", 1.0)] } else { vec![("c17-spl", 0.6), ("c17-te", 1.0)] };
+    let all: Vec<(&'static str, f64)> = if thorough { vec![("c17-spl", 0.4), ("c17-te", 0.25), ("c17-tfee", 0.6), ("c17-t22", 1.0)] } else { vec![("c17-spl", 0.5), ("c17-te", 0.6), ("c17-tfee", 1.0)] };
     match std::env::var("WPV_C17_WORLDS") {
         Ok(sel) => [("c17-spl", 0.5), ("c17-tfee", 0.6), ("c17-t22", 1.0)].into_iter().filter(|(n, _)| sel.split(',').any(|x| x == *n)).collect(),
         Err(_) => all,
@@ -634,6 +634,9 @@ pub fn run(ctx: &Ctx) -> Report {
         let share = ((total_budget - ctx.elapsed()) * frac).max(2.0);
         let roots: Vec<Ledger> = b.roots.iter().map(|x| x.1.clone()).collect();
         let root_names: Vec<String> = b.roots.iter().map(|x| x.0.clone()).collect();
+        // quick tier: the transfer-fee world (fee on the mint that is input, intermediate or output depending on the route) is
+        // explored one level less deep than the plain worlds
+        let depth = if !thorough && *name == "c17-tfee" { depth.saturating_sub(1).max(1) } else { depth };
         let lim = Limits { max_depth: depth, budget_s: share, max_states: 5_000_000 };
         let (stats, found) = explore::explore(&m, &roots, &lim);
         if let Some(f) = found {
